@@ -1013,6 +1013,9 @@ class _Tracker:
                         new_here.append(el)
             if new_here:
                 allvals = [el2.get("id") for el2 in cnv]  # the shape ids of the part (p:cTn/@id and the like are other id spaces)
+                # the picture nested in an embedded object carries the constant id 0 (not a shape of the slide); any other value there
+                # is in the part's id space like every p:cNvPr/@id
+                allvals += [e_.get("id") for e_ in root.xpath("//a:graphicData//p:cNvPr") if e_.get("id") not in (None, "0")]
                 for el in new_here:
                     v = el.get("id")
                     if not (v is not None and v.isdigit() and int(v) > 0):
@@ -1174,6 +1177,10 @@ def _native_histories(tier="quick", seed=0):
         for _ in range(3):
             sh.add_textbox(0, 0, 10, 10)
         sh.add_group_shape()
+        # shapes whose markup nests further id-carrying elements (the icon picture of an embedded object, a movie's picture), then more
+        sh.add_ole_object(io.BytesIO(b"PK\x03\x04fake"), "Some.ProgId", 0, 0, 100, 100)
+        sh.add_textbox(0, 0, 10, 10)
+        sh.add_connector(MSO_CONNECTOR.STRAIGHT, 0, 0, 10, 10)
         sh.turbo_add_enabled = False
 
     def op_graphic(prs, rnd):
